@@ -101,7 +101,7 @@ Quad(d, p) == IF d = 1 THEN RMul(Q(-3, 4), R((p[1] - 1) * (p[1] - 1)))
               ELSE RAdd(RAdd(RMul(Q(-3, 4), R((p[1] - 1) * (p[1] - 1))), RMul(Q(-1, 2), R((p[2] + 1) * (p[2] + 1)))),
                         Q(p[1] * p[2], 2))
 Hole(d, p) == IF d = 1 THEN (IF p = <<2>> THEN NaN ELSE IF p = <<-2>> THEN NegInf ELSE NA)
-              ELSE (IF p = <<1, 1>> THEN NaN ELSE IF p = <<-1, 1>> THEN NegInf ELSE NA)
+              ELSE (IF p = <<1, -1>> THEN NaN ELSE IF p = <<-1, 1>> THEN NegInf ELSE NA)
 
 \* table value at p: the target log-density (RW, CW, MALA) or the likelihood log-density (PCN)
 Table(d, tgt, p) ==
